@@ -195,3 +195,29 @@ let taut_chain (ps : psnap) : (Model.ref list, string) result =
       (match Model.fam_of s' (List.hd ch) with
        | Some f when n > 10 || Model.feq_b f (Model.f_powerset Model.O (nat n)) -> Ok ch
        | _ -> Error "taut(0) of the model does not denote all subsets")
+
+(* add_vars(k) between two consecutive snapshots [pp] and [ps]: the extracted zadd_vars on the lifted
+   pre-state must give the implementation's variable order and keep the family of every handle *)
+let add_vars_check (pp : psnap) (ps : psnap) (k : int) : string option =
+  match Model.zadd_vars pp.snap (nat k) with
+  | None -> Some "zadd_vars undefined"
+  | Some (s', _) ->
+    let ints l = List.map int_of_nat l in
+    if ints s'.Model.s_v2l <> Array.to_list ps.v2l || ints s'.Model.s_l2v <> Array.to_list ps.l2v then
+      Some (Printf.sprintf "variable order after add_vars(%d): model var_to_level [%s], implementation [%s]" k
+              (String.concat " " (List.map string_of_int (ints s'.Model.s_v2l)))
+              (String.concat " " (List.map string_of_int (Array.to_list ps.v2l))))
+    else begin
+      let bad = ref None in
+      List.iter
+        (fun (slot, e) ->
+          match List.assoc_opt slot ps.handles with
+          | Some e' ->
+            stat "c09_addvars_handles" 1;
+            (match Model.fam_of s' e.Model.eref, Model.fam_of ps.snap e'.Model.eref with
+             | Some f, Some g when Model.feq_b f g -> ()
+             | _ -> bad := Some (Printf.sprintf "h%d: family after add_vars(%d) differs between model and implementation" slot k))
+          | None -> ())
+        pp.handles;
+      !bad
+    end
